@@ -429,7 +429,7 @@ Definition start_if_ready (s : state) (id i : nat) (retry : Z) (st0 : stage) (by
   if negb (start_stage_fresh (s_status st)) && negb zombie then ok []
   else if should_skip st then ok [txn [c_mark id; c_push (MSkipStage i)]]
   else if mutex_blocked s i st then ok [c_push (MStartStage i (retry + 1))]
-  else if choice_claimed s i st then ok [txn [c_mark id; c_push (MCancelStage i)]]
+  else if status_eqb (s_status st) NOT_STARTED && choice_claimed s i st then ok [txn [c_mark id; c_push (MCancelStage i)]]
   else
     (* claim transaction *)
     let m := match s_mutex st with
